@@ -2,7 +2,162 @@
 import itertools
 from .common import *   # noqa
 
-CONTRACTS = []
+import z3
+from pyvc.nparr import sym_array, SArr
+from pyvc import frontend
+
+F = 'core/_files.py'
+
+
+class Stack(Contract):
+    """self.stack(other, 't') for N files (N = 2 or 3) whose stack dimension t has ARBITRARY lengths and a shared dimension y of
+    arbitrary length; variables v(t, y), u(t), w(y):
+      * len(t) of the result is the sum of the lengths, y is kept, flags kept;
+      * v and u are the pieces laid end to end IN ARGUMENT ORDER: result[i] = piece_p[i - offset_p] for offset_p <= i < offset_p + len_p;
+      * w (no stack dimension) is the first file's; attributes carried; fresh buffers; every input unchanged."""
+    prop = 'C04'
+    target = F + '::PseudoNetCDFFile.stack'
+    max_paths = 120
+
+    def __init__(self, n, other_is_list=True):
+        self.n, self.other_is_list = n, other_is_list
+        self.name = 'stack[%d files,%s]' % (n, 'list' if other_is_list else 'single file argument')
+
+    def inputs(self, ctx, I):
+        mod = frontend.load('core/_variables.py')
+        node, _ = mod.find('PseudoNetCDFVariable')
+        cls = I.classref(mod, node)
+        self.ny = ctx.fresh('ny')
+        self.nt, self.files, self.vars, self.pre = [], [], [], []
+        for p in range(self.n):
+            nt = ctx.fresh('nt%d' % p)
+
+            def var(name, dims, shape):
+                a = sym_array('%s%d' % (name, p), shape, 'f')
+                a.cls = cls
+                a.attrs.update(dimensions=dims, _ncattrs=('units',), units='ppb')
+                return a
+            vs = dict(v=var('v', ('t', 'y'), (nt, self.ny)), u=var('u', ('t',), (nt,)), w=var('w', ('y',), (self.ny,)))
+            f = pnc_file(I, dimensions={'t': dim_obj(I, 't', nt, unlimited=True), 'y': dim_obj(I, 'y', self.ny)}, variables=vs,
+                         attrs=dict(title='file%d' % p))
+            self.nt.append(nt)
+            self.files.append(f)
+            self.vars.append(vs)
+            self.pre.append({k: a.buf.get for k, a in vs.items()})
+        other = self.files[1:] if self.other_is_list else self.files[1]
+        return dict(self=self.files[0], other=other, stackdim='t')
+
+    def requires(self, inp):
+        return And(ge(self.ny, 1), *[ge(n, 0) for n in self.nt])
+
+    def small(self, inp):
+        return And(le(self.ny, 2), *[le(n, 2) for n in self.nt])
+
+    def piece(self, key, i, rest):
+        """element i (along t) of the pieces laid end to end, from the entry state of the inputs"""
+        off = 0
+        offs = []
+        for n in self.nt:
+            offs.append(off)
+            off = add(off, n)
+        r = self.pre[-1][key]((sub(i, offs[-1]),) + rest)
+        for p in range(self.n - 2, -1, -1):
+            r = sym.ite(lt(i, add(offs[p], self.nt[p])), self.pre[p][key]((sub(i, offs[p]),) + rest), r)
+        return r
+
+    def ensures(self, inp, res, I):
+        if not hasattr(res, 'attrs') or 'variables' not in res.attrs:
+            return [('returns-file', False)]
+        dims, vs = res.attrs['dimensions'], res.attrs['variables']
+        total = 0
+        for n in self.nt:
+            total = add(total, n)
+        out = [('is-a-new-file', all(res is not f for f in self.files)),
+               ('dimensions', sorted(dims.keys()) == ['t', 'y']), ('variables', sorted(vs.keys()) == ['u', 'v', 'w']),
+               ('file-attributes-of-the-first-file', res.attrs.get('title') == 'file0')]
+        if sorted(dims.keys()) != ['t', 'y'] or sorted(vs.keys()) != ['u', 'v', 'w']:
+            return out
+        V, U, W = vs['v'], vs['u'], vs['w']
+        i, j = z3.Int('i'), z3.Int('j')
+        out += [('length(t) = sum of the lengths', eq(dims['t'].attrs['_len'], total)), ('length(y) kept', eq(dims['y'].attrs['_len'], self.ny)),
+                ('unlimited-flags-kept', And(eq(dims['t'].attrs['_unlimited'], True), eq(dims['y'].attrs['_unlimited'], False))),
+                ('shapes', And(eq(V.shape[0], total), eq(V.shape[1], self.ny), eq(U.shape[0], total), eq(W.shape[0], self.ny))),
+                ('v = pieces end to end in argument order', Implies(And(ge(i, 0), lt(i, total), ge(j, 0), lt(j, self.ny)), eq(V.get(i, j), self.piece('v', i, (j,))))),
+                ('u = pieces end to end in argument order', Implies(And(ge(i, 0), lt(i, total)), eq(U.get(i), self.piece('u', i, ())))),
+                ('w = first file', Implies(And(ge(j, 0), lt(j, self.ny)), eq(W.get(j), self.pre[0]['w']((j,))))),
+                ('variable-attributes-carried', all(x.attrs.get('units') == 'ppb' and tuple(x.attrs.get('dimensions', ())) == d
+                                                   for x, d in ((V, ('t', 'y')), (U, ('t',)), (W, ('y',))))),
+                ('fresh-buffers', all(x.buf is not a.buf for x in (V, U, W) for vs_ in self.vars for a in vs_.values()))]
+        unchanged = []
+        for p in range(self.n):
+            unchanged.append(Implies(And(ge(i, 0), lt(i, self.nt[p]), ge(j, 0), lt(j, self.ny)),
+                                     And(eq(self.vars[p]['v'].buf.get((i, j)), self.pre[p]['v']((i, j))), eq(self.vars[p]['u'].buf.get((i,)), self.pre[p]['u']((i,))),
+                                         eq(self.vars[p]['w'].buf.get((j,)), self.pre[p]['w']((j,))))))
+            unchanged.append(eq(self.files[p].attrs['dimensions']['t'].attrs['_len'], self.nt[p]))
+            unchanged.append(self.files[p].attrs['variables'].get('v') is self.vars[p]['v'])
+        out.append(('inputs-unchanged', And(*unchanged)))
+        # corollary (split/stack inverse): if the inputs are CONSECUTIVE pieces of one array F, the result is F
+        Fv = z3.Function('whole_v', z3.IntSort(), z3.IntSort(), z3.RealSort())
+        a, b = z3.Int('sp_a'), z3.Int('sp_b')
+        hyp, off = [], 0
+        for p in range(self.n):
+            hyp.append(z3.ForAll([a, b], Implies(And(ge(a, 0), lt(a, self.nt[p]), ge(b, 0), lt(b, self.ny)),
+                                                 eq(self.pre[p]['v']((a, b)), Fv(sym.to_z3(add(off, a)), b)))))
+            off = add(off, self.nt[p])
+        out.append(('corollary: stacking consecutive pieces of an array reproduces the array',
+                    Implies(And(*hyp), Implies(And(ge(i, 0), lt(i, total), ge(j, 0), lt(j, self.ny)), eq(V.get(i, j), Fv(i, j))))))
+        return out
+
+    # -- replay on the real function -----------------------------------------------------------------------------------
+    def concretize(self, model, inp):
+        from pyvc.verify import model_value
+        return dict(n=self.n, other_is_list=self.other_is_list, ny=model_value(model, self.ny), nt=[model_value(model, x) for x in self.nt])
+
+    def concretize_without_model(self, inp):
+        return dict(n=self.n, other_is_list=self.other_is_list, ny=2, nt=[2, 0, 3][:self.n])
+
+    def replay(self, c):
+        import numpy as np
+        P = import_real()
+        ny, nts = int(c['ny']), [int(x) for x in c['nt']]
+        if not (1 <= ny <= 30 and all(0 <= x <= 30 for x in nts)):
+            return None
+        rng = np.random.default_rng(4)
+        fs, data = [], []
+        for p, nt in enumerate(nts):
+            f = P.PseudoNetCDFFile()
+            f.createDimension('t', nt).setunlimited(True)
+            f.createDimension('y', ny)
+            f.title = 'file%d' % p
+            d = dict(v=rng.random((nt, ny)), u=rng.random(nt), w=rng.random(ny))
+            for k_, dims in (('v', ('t', 'y')), ('u', ('t',)), ('w', ('y',))):
+                f.createVariable(k_, 'd', dims, values=d[k_].copy(), units='ppb')
+            fs.append(f)
+            data.append(d)
+        try:
+            g = fs[0].stack(fs[1:] if c['other_is_list'] else fs[1], 't')
+        except Exception as e:
+            return False, dict(raised=type(e).__name__, message=str(e)[:200], nt=nts, ny=ny)
+        bad = []
+        if len(g.dimensions['t']) != sum(nts) or len(g.dimensions['y']) != ny or not g.dimensions['t'].isunlimited():
+            bad.append('dimensions')
+        for k_ in ('v', 'u'):
+            exp = np.concatenate([d[k_] for d in data], axis=0)
+            got = np.asarray(g.variables[k_][...])
+            if got.shape != exp.shape or not np.array_equal(got, exp):
+                bad.append('%s is not the concatenation in argument order' % k_)
+        if not np.array_equal(np.asarray(g.variables['w'][...]), data[0]['w']):
+            bad.append('w is not the first file\'s')
+        for f, d in zip(fs, data):
+            for k_ in d:
+                if not np.array_equal(np.asarray(f.variables[k_][...]), d[k_]):
+                    bad.append('input modified')
+        if getattr(g, 'title', None) != 'file0' or getattr(g.variables['v'], 'units', None) != 'ppb':
+            bad.append('attributes')
+        return (not bad), dict(nt=nts, ny=ny, failed=bad)
+
+
+CONTRACTS = [Stack(2), Stack(3), Stack(2, other_is_list=False)]
 
 
 def compositions(n, kmax):
@@ -134,9 +289,13 @@ def bounded_replay(p):
 
 
 META = dict(
-    level='exploration',
-    technique='bounded run-time contract (split/stack inverse, concatenation oracle numpy.ma.concatenate)',
-    text='stack(split(f)) = f, slice(stack) = piece and stack = numpy.ma.concatenate in argument order, checked on the real functions over the stated bound.',
-    note='bounded only; concatenation equality is numpy semantics.',
-    assumptions=['numpy.ma.concatenate semantics (oracle)'],
-    explanation='')
+    level='other',
+    technique='stack proved by pyvc for 2 and 3 files of arbitrary sizes (numpy.ma.concatenate as trusted end-to-end model), with the split/stack inverse as a '
+              'corollary of the contract; masks, attributes of pieces, stack_files / pncmfopen and slice(stack) by bounded run-time contract',
+    text='Proved for 2 or 3 files whose stack dimension has ANY lengths (including 0) and a shared dimension of any length: the stacked length is the sum, every element of '
+         'every variable with the dimension is the corresponding piece element in ARGUMENT ORDER, variables without it come from the first file, attributes and flags '
+         'carried, fresh buffers, all inputs unchanged; corollary: stacking consecutive pieces of one array reproduces the array. Bounded: stack(split(f)) = f over all '
+         'compositions, slice(stack) = piece, concatenation oracle, masked variables, stack_files and pncmfopen.',
+    note='numpy.ma.concatenate is a trusted model (pieces end to end); more than 3 files, masks and the multi-file openers are bounded only.',
+    assumptions=['numpy.ma.concatenate lays the pieces end to end along the axis (trusted model; also the oracle of the bounded part)'],
+    explanation='mixed: discharged obligations for PseudoNetCDFFile.stack + bounded split/stack exploration')
